@@ -278,7 +278,9 @@ def get_mc_uuid(seed: Any) -> str:
 
 
 def is_decorator(string: str) -> bool:
-    return len(string) > 2 and string.startswith("@")
+    # A decorator name is a bare word (`@lazy`, `@add`); a selector with arguments that a
+    # macro call has merged into one token (`@e[type=pig]`) is not a decorator
+    return len(string) > 2 and string.startswith("@") and "[" not in string
 
 
 def deep_merge(first: dict, second: dict) -> dict:
